@@ -92,6 +92,40 @@ CLAIMED = {
             "file writes; invoke/return stamps from the global event sequence decide what must / may be recorded.",
             "Trusted: scheduler, SimLock (logical blocking), SimFile with A1. C code is atomic (GIL).",
             "DESIGN.md 3/C16"),
+    "C06": ("deterministic simulation of simulated processes: per-node SimFiles behind a routing destination, work "
+            "handed over by serialize_task_id/continue_task/preserve_context under a seeded interleaving, merge "
+            "order and line shuffling drawn; race of 2-4 threads on one preserve_context callable at line granularity",
+            "Seeded exploration of hand-over programs (multi-hop, bytes/str ids), interleavings of both sides, merge "
+            "orders of the separate log files, and races between concurrent invocations of one preserved callable.",
+            "Trusted: scheduler, router destination (harness), interpreter/model. Ids are continued exactly once.",
+            "DESIGN.md 3/C06"),
+    "C09": ("deterministic simulation of the log transport between writer and parser: seeded reorder / interleave / "
+            "drop of recorded message sets; differential oracle across orders plus reference model",
+            "Seeded exploration: 8 delivery orders and 5 dropped subsets per recorded message set; final parser state "
+            "equal across orders, completion reported exactly at the step delivering the last message, partial trees "
+            "equal an independent reconstruction.",
+            "Trusted: the 30-line reconstruction in props/c11.py, the reference model for the full set.",
+            "DESIGN.md 3/C09"),
+    "C13": ("deterministic simulation with serializer-fault injection: counting, non-idempotent, randomly failing "
+            "field serializers and omitted declared fields through the production Logger; per-call oracle",
+            "Seeded exploration of type definitions x values x failing subsets for start / success / failure / "
+            "stand-alone messages and direct Logger.write; identity snapshots of caller data, exactly-once "
+            "serialization, containment and placement of the two failure reports.",
+            "Trusted: the per-call expectations in props/c13.py; the current context is read from observed messages.",
+            "DESIGN.md 3/C13"),
+    "C15": ("deterministic simulation of generator drivers: seeded interleavings of next/send/throw/close over 1-4 "
+            "decorated generators from changing contexts; per-step context identity oracle, transparency by object "
+            "identity, forest refinement",
+            "Seeded exploration of generator bodies x driver schedules; the wrapper under eliot.twisted.inline_callbacks "
+            "is exercised directly (Twisted absent).",
+            "Trusted: the scripted bodies' own bookkeeping of which body is running (PEP 380 delegation written out).",
+            "DESIGN.md 3/C15"),
+    "C17": ("deterministic simulation supplies the histories (SEQ/THREADS/ASYNC runs captured by one MemoryLogger); "
+            "differential post-run oracle: helpers vs Parser vs model",
+            "Seeded exploration; a post-run history check with no fault in it: the simulator contributes interleaved, "
+            "multi-task, remote-sub-task message lists that the literal lists of test_testing never have.",
+            "Trusted: Parser as the second implementation, the model for counts and outcomes.",
+            "DESIGN.md 3/C17"),
 }
 
 NOT_YET = "check not built yet in this commit (planned, see DESIGN.md section 3)"
